@@ -421,6 +421,7 @@ def check_aligned_allocator(run, db):
 
 
 def run(run):
+    run.rule('R-BOUND.reseat', 'the stack cursor and the arena\'s current block (which supplies the block end) change together on every way out of a member function, exceptional ones included (shared rule of C06)', floor=4)
     run.rule('R-ALIGN.term', 'returned address = X + align_offset(X, alignment) for the bumped cursor', floor=6)
     run.rule('R-ALIGN.pool', 'pools reject larger alignments; collection uses max_alignment', floor=10)
     run.rule('R-ALIGN.insert', 'memory the pools give to a free list is aligned for max_alignment', floor=8)
@@ -438,6 +439,8 @@ def run(run):
         db = common.load_or_skip(run, cfg, ('W-layout',))
         if db is None:
             return
+        from rules import c06 as _c06
+        _c06.check_reseat(run, db, rule='R-BOUND.reseat')
         if check_align_term(run, db) < 3:
             run.broke('bump allocation functions not found [%s]' % cfg)
         if check_pool_alignment(run, db) < 8:
